@@ -323,8 +323,16 @@ def check(hist: list[dict], mode: str, eps_due: float, res_order: float, gap: fl
             R.evals["loop-progress"] += 1
             R.bad("loop-progress", f"{outcome}|{'after-raise' if s['raises'] else 'no-raise'}", f"virtual OS: {outcome} (loop never reaches its pending exit alarm)", s["end"])
             continue
-        R.evals["foreign-exception"] += 1
         exc = end["exc"]
+        if earlier_tags:
+            R.evals["exc-once"] += 1
+            if outcome == "raise" and exc.get("tag") in earlier_tags and not any(_same(exc, hist[j]["raised"]) for j in s["raises"]):
+                R.bad("exc-once", "exception-of-previous-run-raised-again", f"a following run() raised {exc} again", s["end"])
+                for j in s["raises"]:
+                    if hist[j]["raised"].get("tag") is not None:
+                        earlier_tags.append(hist[j]["raised"]["tag"])
+                continue
+        R.evals["foreign-exception"] += 1
         if outcome == "raise" and not exc["type"].endswith("ExceptionGroup") and not any(_same(exc, hist[j]["raised"]) for j in s["raises"]):
             R.bad("foreign-exception", f"run-raised-{_exc_at(exc)}", f"run() raised {exc}, which no callback raised (callbacks raised: {[hist[j]['raised'] for j in s['raises']]})", s["end"])
             continue
@@ -395,11 +403,6 @@ def check(hist: list[dict], mode: str, eps_due: float, res_order: float, gap: fl
                     )
         # foreign exception raised *by a callback body* cannot happen (bodies only raise Exit/Boom); a foreign
         # type recorded as `raised` means an API call raised inside the body and is reported by api-call.
-        if earlier_tags:
-            R.evals["exc-once"] += 1
-            exc = end["exc"]
-            if outcome == "raise" and exc.get("tag") in earlier_tags and not any(_same(exc, hist[j]["raised"]) for j in s["raises"]):
-                R.bad("exc-once", "exception-of-previous-run-raised-again", f"second run() raised {exc} again", s["end"])
         for j in s["raises"]:
             t = hist[j]["raised"].get("tag")
             if t is not None:
